@@ -351,17 +351,29 @@ func (dm *DMap) putOnCluster(e *env) error {
 	return dm.putEntryOnFragment(e, nt)
 }
 
+// wireMilliseconds converts a time-to-live to the whole milliseconds DM.PUT PX and DM.PEXPIRE carry. On the
+// wire zero means "no expiry": a positive duration below one millisecond is rounded up instead of being
+// truncated to zero, otherwise the partition owner stores the key without any expiry.
+func wireMilliseconds(d time.Duration) int64 {
+	ms := d.Milliseconds()
+	if ms == 0 && d > 0 {
+		ms = 1
+	}
+	return ms
+}
+
 func (dm *DMap) writePutCommand(e *env) (*redis.StatusCmd, error) {
 	if e.putConfig.OnlyUpdateTTL {
 		// Expire only updates the expiry, it has its own command.
-		return protocol.NewPExpire(e.dmap, e.key, e.timeout).Command(dm.s.ctx), nil
+		timeout := time.Duration(wireMilliseconds(e.timeout)) * time.Millisecond
+		return protocol.NewPExpire(e.dmap, e.key, timeout).Command(dm.s.ctx), nil
 	}
 	cmd := protocol.NewPut(e.dmap, e.key, e.value)
 	switch {
 	case e.putConfig.HasEX:
 		cmd.SetEX(e.putConfig.EX.Seconds())
 	case e.putConfig.HasPX:
-		cmd.SetPX(e.putConfig.PX.Milliseconds())
+		cmd.SetPX(wireMilliseconds(e.putConfig.PX))
 	case e.putConfig.HasEXAT:
 		cmd.SetEXAT(e.putConfig.EXAT.Seconds())
 	case e.putConfig.HasPXAT:
